@@ -270,6 +270,9 @@ def run(ctx):
     _r1_r4(ctx, M, cg)
     _r3(ctx, M, cg)
     _r2(ctx)
+    _r6_renders_whatever_is_stored(ctx, cg)
+    # a lease whose row cannot be read is a lease missing from the listing: how the columns are read belongs to C18
+    ctx.include("C18", rules=("R10",))
 
 
 def _agg_items(st):
@@ -339,7 +342,7 @@ def _r1_r4(ctx, M, cg):
             ctx.bad("R1", "metrics-query-restricted", where, "the metrics query must range over all rows")
         cols = [_col_meaning(e) for e, _ in s.stmt["items"]]
         cdef = closure_def_of(norm(T.call_args(s.bb)[3])) if len(s.term["args"]) > 3 else None
-        info = closure_row_columns(P, cdef) if cdef else None
+        info = closure_row_columns(P, cdef, s.stmt) if cdef else None
         colmap = info[1] if info else {}
 
         # what the function returns: a pair; each element is column k or (column j - column k)
@@ -488,7 +491,7 @@ def _r3(ctx, M, cg):
         qm = [(bb, tm) for bb, tm in b.calls() if (callee_name(tm) or "").endswith("::query_map")]
         for bb, tm in qm:
             cdef = closure_def_of(norm(T.call_args(bb)[2]))
-            info = closure_row_columns(P, cdef) if cdef else None
+            info = closure_row_columns(P, cdef, st) if cdef else None
             if info:
                 want = {"ip": "address", "client_id": "clientid", "start": "start", "expire": "expiry"}
                 for f, colname in want.items():
@@ -565,3 +568,25 @@ def _r2(ctx):
     if not J.problems:
         ctx.ok("R2", "json-interpolations-inert", "", "%d format sites" % J.sites)
     ctx.floor("R2", "format sites in the JSON responder", J.sites, 4)
+
+
+def _r6_renders_whatever_is_stored(ctx, cg):
+    """"whatever bytes clients put in their host name or identifier": between the rows and the response nothing may panic — a
+    panic while rendering is no document at all, for as long as the offending lease is stored.  The obligation engine of C05 over
+    everything the two responders reach."""
+    from .. import oblig
+    from ..spec import reviewed as RV
+    from . import c05
+    P = ctx.P
+    roots = [b for b in P.bodies if b.startswith("erbium::http::serve_leases") or b.startswith("erbium::http::serve_metrics")]
+    if not roots:
+        if ctx.config == "default":
+            ctx.bad("R6", "anchor:responders", "", "serve_leases / serve_metrics not found")
+        return
+    reach = sorted(r for r in cg.reachable(roots) if r in P.bodies and "::test" not in r)
+    D = oblig.Discharger(P)
+    oblig.Inter(P, cg)
+    side = RV.SideConditions(ctx)
+    n_sites, n_dis, by_rule = c05.check_sites(ctx, D, side, reach, "R6")
+    ctx.floor("R6", "panic-capable sites below the responders", n_sites, 20)
+    ctx.floor("R6", "functions below the responders", len(reach), 30)
